@@ -104,6 +104,7 @@ func main() {
 			loadCase(i+1, *seed*1000003+int64(i), enc)
 		}
 	case "race":
+		raceScratch = *scratch
 		enc, done := openOut(*out)
 		defer done()
 		senc, sdone := openOut(*out + ".steered")
@@ -123,12 +124,12 @@ func main() {
 				os.Exit(2)
 			}
 			i++
-			raceCase(i, *seed*1000003+int64(i), b, []string{"frozen", "live"}[i%2], enc)
+			raceCase(i, *seed*1000003+int64(i), b, []string{"frozen", "live", "frozen", "livefile"}[i%4], enc)
 		}
 		hrng := rand.New(rand.NewSource(*seed))
 		for j := 0; j < *big; j++ {
 			i++
-			raceCase(i, *seed*1000003+int64(i), heavyBeh(hrng, 30+hrng.Intn(40), 240), []string{"frozen", "live"}[i%2], enc)
+			raceCase(i, *seed*1000003+int64(i), heavyBeh(hrng, 30+hrng.Intn(40), 240), []string{"frozen", "live", "frozen", "livefile"}[i%4], enc)
 		}
 		for j := 0; j < *n/4+1; j++ {
 			steeredCase(j+1, *seed*7+int64(j), senc)
